@@ -4769,7 +4769,11 @@ class Entity(object, metaclass=EntityMeta):
     def __setstate__(obj, state):
         if obj._status_ in del_statuses or not state: return
         adict = obj._adict_
+        seeds = obj._session_cache_.seeds[obj._pk_attrs_]
+        was_seed = obj in seeds
         obj._db_set_({adict[name]: val for name, val in state.items()}, unpickling=True)
+        if was_seed and not any(adict[name].columns for name in state):
+            seeds.add(obj)  # only column-less reverse values are known, the row itself was not loaded: real class still undecided
     @cut_traceback
     def __init__(obj, *args, **kwargs):
         obj._status_ = None
